@@ -331,6 +331,20 @@ def tail_err(out):
     return " | ".join(lines[:3])[:400]
 
 
+def plugin_side_crash(stderr):
+    """True when the goroutine that panicked runs the in-process ATP server of the scripted plugin and has no engine frame."""
+    i = stderr.find("panic:")
+    if i < 0:
+        return False
+    j = stderr.find("\ngoroutine ", i)
+    if j < 0:
+        return False
+    k = stderr.find("\n\ngoroutine ", j + 1)
+    block = stderr[j:k if k > 0 else len(stderr)]
+    block = block.replace("go.flow.arcalot.io/engine/cmd/vharness", "")
+    return "pluginsdk/atp.(*atpServerSession)" in block and "go.flow.arcalot.io/engine/" not in block
+
+
 def run_check(pid, tier, seed):
     spec = PROPS[pid]
     chk = Check(pid, tier, seed)
@@ -381,6 +395,16 @@ def run_check(pid, tier, seed):
             # a Go panic on any goroutine kills the process: that is what C07 forbids; for the other properties the
             # crash is reported as a broken run of the stream
             site = crash_site(cr["stderr"])
+            if plugin_side_crash(cr["stderr"]):
+                # the panicking goroutine is the in-process ATP *server* of the scripted plugin (pluginsdk, plugin side).  In a
+                # real deployment that code runs in the plugin's container: the engine would see a crashed step, not die.
+                # It is an artefact of running the plugin in the harness process, not a behaviour of /repo; the case is
+                # skipped (the stream continues behind it) and counted.
+                chk.hist["crash:plugin-side-atp-server"] = chk.hist.get("crash:plugin-side-atp-server", 0) + 1
+                note = "%s: case %d skipped, the in-process plugin (pluginsdk ATP server, outside /repo) panicked: %s" % (st["name"], cr["index"], site)
+                if len([n for n in chk.notes if "in-process plugin" in n]) < 3:
+                    chk.notes.append(note)
+                continue
             chk.violation("%s:process-crash:%s" % (pid, site), "the engine crashed the process in stream %s (case %d): %s" % (st["name"], cr["index"], site),
                           {"kind": "impl-counterexample", "stream": st["name"], "harness_args": cr["args"], "case_index": cr["index"],
                            "stderr": cr["stderr"][-2500:]})
